@@ -265,6 +265,25 @@ func checkC11(c *Ctx, r *Report) {
 			}
 		}
 	}
+	// R11.5: a coil reply reaches the lookup at all: the exception recognisers the clients
+	// install claim a reply only if it is an exception frame of their own framing (a recogniser
+	// of the other framing fires on coil data whose bytes happen to look like an exception)
+	{
+		crc := c.fnMust("packet", "CRC16")
+		installedRecognisers(c, r, "R11.5", crc, nil)
+		r.floor("R11.5", 2)
+	}
+	// R11.6: the payload a lookup reads is the reply's own: do() hands back a fresh copy of a
+	// call-local buffer, so a later exchange cannot change an earlier reply's coils
+	clientLoopItems(c, r, "R7.2", "R11.6", "the frame handed on is a copy of received[0:total]")
+	for _, name := range []string{"Client", "SerialClient"} {
+		ci := analyseClient(c, name, name == "SerialClient")
+		if ci.problem == "" && ci.recvBuf != nil && ci.recvBuf.fresh {
+			r.ok("R11.6", fnID(ci.do), "the receive buffer is local to the call", c.pos(ci.do.Pos()), true)
+		} else {
+			r.fail("R11.6", fnID(ci.do), "the receive buffer is shared between calls: an earlier reply's coil bytes change under the caller", c.pos(ci.do.Pos()), ci.problem, "shared-receive-buffer")
+		}
+	}
 	r.assumption("coil payload bytes are stable (no analysed function stores into the payload)")
 	r.assumption("slice lengths are below 2^31; int is 64 bits wide")
 }
